@@ -603,6 +603,10 @@ def ob_handle_remove(ctx, tier):
             for d_ in [e for e in p.trace if e.kind == "drop" and "EventDispatcher" in e.callee and e.idx > un[0].idx]:
                 if any("SourceList" in str(g) for g in d_.guards):
                     c.fail("source_list_borrowed_while_the_removed_source_is_dropped", p)
+                # round 9 (seed C16-6): nor the poller or the lifecycle set -- an Async adapter owned by the removed source
+                # deregisters its fd in Drop through a try_borrow_mut of the poller and silently skips it when that fails
+                if any(("Poll" in str(g) or "AdditionalLifecycle" in str(g)) for g in d_.guards):
+                    c.fail("poller_borrowed_while_the_removed_source_is_dropped", p)
             # a removed source is never left in the lifecycle set (whose entries must resolve to occupied slots: dispatch
             # treats anything else as unreachable): when its unregistration FAILED -- the dispatcher drops the entry only
             # on success -- the entry is dropped here
@@ -1615,7 +1619,17 @@ def ob_stream(ctx, tier):
         ended = any(is_cb(e) and any(isinstance(a, Enum) and a.disc == 0 and enum_base_is(a, "Option") for a in e.args) for e in p.trace)
         if ended and not entails(ctx, p.pc, dz(ok_payload_disc(p.ret)) == 3)[0]:
             c.fail("ended_stream_not_removed", p)
-    return c.res(paths + p2, cfg)
+    # round 9 (seed C10-7): the stream's waker pings on EVERY path, whatever the source is doing at that moment (a wake issued
+    # while the stream is being polled -- by the stream itself or by a producer thread -- is the only thing that gets a
+    # stream that answered Pending polled again)
+    p3 = []
+    for nm in ("wake", "wake_by_ref"):
+        f3, ps3, _ = run_fn(ctx, r"^fn sources::stream::<impl at [^>]*>::%s\(_1: &?Arc<PingWaker>" % nm)
+        p3 += ps3
+        for p in ps3:
+            if p.status == "return" and not calls(p, r"Ping::ping$"):
+                c.fail("stream_waker_does_not_ping_on_every_path", p)
+    return c.res(paths + p2 + p3, cfg)
 
 
 def enum_base_is(v, base):
